@@ -249,6 +249,44 @@ prop(
 )
 
 
+prop(
+    "C12", "exploration",
+    "A temporary hidi-config tree per case (the process chdirs into it): for keyboards and gamepads independently each of the four candidate "
+    "files {user exact, user default, factory exact, factory default} present or absent (TestC12Matrix: all 256 combinations x {keyboard, "
+    "joystick} x {matching, non-matching identifier}); device type from {Keyboard, Joystick, Mouse, Unknown, 7}; 0-6 noise entries: file that "
+    "fails TOML, valid TOML that fails validation, unknown field, empty, binary, a decoder-crashing document, a valid higher-precedence-looking "
+    "config without .toml suffix / with .toml.bak etc., nested directories, a directory named x.toml, a dangling symlink, .TOML upper case "
+    "(only with unusable content); valid configs of other devices; one of the four directories missing in 1/5 of the cases. Oracle: no panic; "
+    "all directories present -> no error and FindConfig returns the file the precedence list names (checked by tag, type and file name) or an "
+    "error when none applies; unsupported types -> UnsupportedDeviceType; missing directory -> an error or that directory treated as empty. "
+    "Non-trivial = noise present or a directory missing; distinct by case hash.",
+    [
+        dict(test="TestC12", shards=16, checks_quick=400, checks_thorough=12000),
+        dict(test="TestC12Matrix", shards=16, replayable=False),
+    ],
+    exhaustive=True,
+    level_text="Exhaustive presence matrix plus generated trees with noise, against a direct statement of the precedence list.",
+    level_note="Trusted: the fixture builder; real files on the sandbox file system. Unreadable (permission-denied) directories cannot be built as root.",
+    technique="property-based testing (rapid) over generated file trees + exhaustive presence matrix vs precedence model",
+)
+
+prop(
+    "C19", "exploration",
+    "A temporary tree with the four directories and pre-created files (a.toml, device.toml, notes.txt, a.toml.bak, a.toml~, mytoml, x.tom, toml, "
+    "atoml, README); 1-8 operations: a single in-place write (open without truncation, one write(2)), a burst of 1-20 writes across "
+    "directories/files, or a pause; the consumer reads promptly or 1-200 ms late; then cancel while idle, with a notification pending unread, or "
+    "in the middle of a burst. Count-based oracle that is sound under any timing: total notifications <= in-place writes to *.toml files "
+    "(so a notification for any other file is an excess), after every write/burst that touched a .toml file at least one further "
+    "notification arrives within 10 s, the stream does not end before cancel, and after cancel a consumer that keeps receiving sees it end "
+    "within 10 s. The watches are proven active first by a warm-up write per directory. Non-trivial = the case contains a TOML write.",
+    [dict(test="TestC19", shards=16, checks_quick=14, checks_thorough=400, shrinktime="5s", gomaxprocs=4)],
+    level_text="Generated write/cancel schedules against a count-based oracle; 'eventually' is checked as 'within 10 s'.",
+    level_note="Trusted: inotify on the sandbox file system queues one IN_MODIFY per write(2); kernel and goroutine timing are sampled, not controlled. "
+               "Every warm-up write beyond one per directory weakens the upper bound by one (reported in the class histogram).",
+    technique="property-based testing (rapid) of write/cancel schedules with a timing-independent counting oracle",
+)
+
+
 # Properties not (yet) claimed. Kept current by hand; every id of properties.jsonl is either in PROPS or here.
 _PENDING = "check not built yet in this round; planned as property-based test per DESIGN.md"
 NOT_APPLICABLE = [{"property_id": "C%02d" % i, "reason": _PENDING} for i in range(1, 21) if "C%02d" % i not in PROPS]
